@@ -1,0 +1,20 @@
+//go:build verif
+
+package compress
+
+import "compress/gzip"
+
+// VerifFreshRegistry gives the process-global compress registry the contents it has
+// right after program start (verification builds only: lets one process stand in for
+// a freshly started instance).
+func VerifFreshRegistry() {
+	defaultCompressSrvList = NewServices([]CompressOption{
+		{
+			Name: BestCompression,
+			Levels: map[string]int{
+				"br":   -1,
+				"gzip": gzip.BestCompression,
+			},
+		},
+	})
+}
